@@ -40,12 +40,22 @@ fn tier_of(s: &str) -> Tier {
     }
 }
 
-fn replay_files(id: &str) -> Vec<PathBuf> {
-    let dir = Path::new(VERIF).join("replays").join(id);
-    let mut v: Vec<PathBuf> = std::fs::read_dir(dir)
-        .map(|d| d.filter_map(|e| e.ok().map(|e| e.path())).filter(|p| p.extension().map(|x| x == "json").unwrap_or(false)).collect())
-        .unwrap_or_default();
-    v.sort();
+/// committed minimal reproductions: `replays/<id>/` for both tiers, `replays-thorough/<id>/` (cases that are too
+/// expensive for the check that runs on every change, e.g. gigabyte arenas) for the thorough tier only
+fn replay_files(id: &str, tier: Tier) -> Vec<PathBuf> {
+    let mut v: Vec<PathBuf> = Vec::new();
+    let mut dirs = vec!["replays"];
+    if tier == Tier::Thorough {
+        dirs.push("replays-thorough");
+    }
+    for d in dirs {
+        let dir = Path::new(VERIF).join(d).join(id);
+        let mut w: Vec<PathBuf> = std::fs::read_dir(dir)
+            .map(|d| d.filter_map(|e| e.ok().map(|e| e.path())).filter(|p| p.extension().map(|x| x == "json").unwrap_or(false)).collect())
+            .unwrap_or_default();
+        w.sort();
+        v.extend(w);
+    }
     v
 }
 
@@ -66,7 +76,7 @@ fn main() {
             macro_rules! go {
                 ($p:ty, ) => {{
                     let pi = info::<$p>(tier);
-                    supervise(pi, SupArgs { tier, seed, workers, cases_override }, replay_files(id), &|v| simplify_one::<$p>(v))
+                    supervise(pi, SupArgs { tier, seed, workers, cases_override }, replay_files(id, tier), &|v| simplify_one::<$p>(v))
                 }};
             }
             let (mut code, mut ev) = with_prop!(id, go!());
